@@ -707,20 +707,32 @@ def _verbosity(ctx, col):
     fn = m.functions.get("verbosity_to_loguru_level")
     if fn is None:
         raise AnalysisError("anchor vanished: mdpax.utils.logging.verbosity_to_loguru_level")
-    tables = [n for n in ast.walk(fn) if isinstance(n, ast.Dict)]
-    ok, why = False, "no level table (dict literal) in verbosity_to_loguru_level"
-    if len(tables) == 1:
+    # the table: a dict literal keyed by level, or a tuple / list literal whose position is the level
+    def as_table(n):
         try:
-            tab = ast.literal_eval(tables[0])
+            v = ast.literal_eval(n)
         except Exception:
-            tab = None
-        ok = tab == LEVELS
-        why = "level table == {0:ERROR, 1:WARNING, 2:INFO, 3:DEBUG, 4:TRACE}" if ok else f"level table is {tab}"
-    col.add("R20.9", "verbosity_to_loguru_level", m.relpath, fn.lineno, ok, why, text="level table")
-    # the table is indexed by the argument itself
+            return None
+        if isinstance(v, dict):
+            return v
+        if isinstance(v, (tuple, list)) and v and all(isinstance(x, str) for x in v):
+            return dict(enumerate(v))
+        return None
+
     from .common import returned_expr
     rv = returned_expr(fn)
-    idx_ok = isinstance(rv, ast.Subscript) and isinstance(rv.value, ast.Dict) \
+    tab_node = rv.value if isinstance(rv, ast.Subscript) else None
+    tab = as_table(tab_node) if tab_node is not None else None
+    if tab is None:
+        cands = [as_table(n) for n in ast.walk(fn) if isinstance(n, (ast.Dict, ast.Tuple, ast.List))]
+        cands = [c for c in cands if c and all(isinstance(k, int) for k in c)]
+        tab = cands[0] if len(cands) == 1 else None
+    ok = tab == LEVELS
+    why = "level table == {0:ERROR, 1:WARNING, 2:INFO, 3:DEBUG, 4:TRACE}" if ok else \
+        (f"level table is {tab}" if tab is not None else "no level table (dict / tuple literal) in verbosity_to_loguru_level")
+    col.add("R20.9", "verbosity_to_loguru_level", m.relpath, fn.lineno, ok, why, text="level table")
+    # the table is indexed by the argument itself
+    idx_ok = isinstance(rv, ast.Subscript) and as_table(rv.value) is not None \
         and isinstance(rv.slice, ast.Name) and rv.slice.id == fn.args.args[0].arg
     col.add("R20.9", "verbosity_to_loguru_level", m.relpath, fn.lineno, idx_ok,
             "returns table[verbose]" if idx_ok else "the level is not looked up by the verbosity argument itself", text="table lookup")
